@@ -27,7 +27,7 @@ CFG = {
     "rule": "the input space is infinite (exhaustive=false); fully enumerated sub-spaces on every run: every 2-byte terminator over {SP,CR,LF,NUL,x} x 4 type letters x "
             "entry position (first subsection / first and second entry of a later subsection), the 3 legal terminators x 10 "
             "continuations, all 125 width triples (listed below); corpus (defect #32 inputs, spot checks, past failures); all 125 width triples {0..4}^3 x with/without /Index x random rows (plus truncated rows, a type byte "
-            "above 2, Flate with none/Predictor 1/PNG-Up at two compression levels); 44 single-field corruptions of the stream "
+            "above 2, a wide type field with non-zero high bytes and a legal low byte, Flate with none/Predictor 1/PNG-Up at two compression levels); 44 single-field corruptions of the stream "
             "dictionary; n random legal tables (1-4 subsections, random starts up to 2^63-1000, leading zeros, blanks, header EOLs, "
             "0-5 entries, 3 terminators) each with 2 (quick) or all 26 (thorough) single-field corruptions (incl. sign/blank in the number fields) of one entry, one "
             "random byte alteration, one truncation and one shifted start; header oddities; one large table and stream. "
